@@ -29,7 +29,7 @@ CHECKS['C05'] = dict(
     level='exploration', ref='DESIGN.md 6 (C05)',
     text='Seeded generation of operation histories (fresh / mixed / repeated batches, scalar queries, sweeps over four '
          'generators, real SciPy and NLopt optimisers through the scalar bridge), serial and under simulated worker '
-         'schedules; a shadow model fed from the objective\'s own call log decides call counts, state, cost/vector '
+         'schedules, optionally with an SQLite store whose lock a simulated foreign process holds during a write; a shadow model fed from the objective\'s own call log decides call counts, state, cost/vector '
          'pairing, sign and rounding of the signed costs and the feasibility marker order after every operation. '
          'Sampling of histories, not proof.',
     note='objective owned by the harness and recomputed by the oracle; failures off; default evaluator only; joblib stubbed.',
@@ -131,7 +131,8 @@ CHECKS['C14'] = dict(
     text='Histories of 1-5 batches through one WorstCaseEvaluator / GradientEvaluator object (serial and simulated workers, optional '
          're-submission) and the batch sequences of NSGA-II / eps-MOEA runs constructed with these evaluator types; after every '
          'batch the neighbour set, neighbour costs, sensitivity sum, cost-vector length, gradient quotient and call budget are '
-         'checked for all designs ever handed to the evaluator. Found defect F2 on the pinned tree (fixed in /repo). Sampling.',
+         'checked for all designs ever handed to the evaluator; designs may fail transiently, have integer coordinates or be '
+         're-submitted, OMOPSO / SMPSO runs get the evaluator set on the object. Found defects F2 and F6 (fixed in /repo). Sampling.',
     note='failures off (O2); NSGA-II parent copies skipped; sensitivity to 1e-12, gradient to 1e-9 relative.',
     technique=TECH + ': seeded batch histories, history oracle over all earlier designs after every batch')
 CHECKS['C17'] = dict(
@@ -139,7 +140,8 @@ CHECKS['C17'] = dict(
     text='A harness ledger of what was recorded (after complete runs incl. failure re-rolls, optionally read back from SQLite through '
          'a read-mode view, and after generated recordings with unsorted tags / duplicates / maximised goals) is compared with every '
          'Results query; gd and epsilon_add identities are checked on the recorded fronts (in-run invariant for the indicator '
-         'clauses). Found defect F3 on the pinned tree (fixed in /repo). Sampling.',
+         'clauses); one Results object is queried before and after the history grows or changes in place. Found defects F3 and F6 '
+         '(fixed in /repo). Sampling.',
     note='indicator clauses only on point sets that arise from runs and their shifts; order among equal sort keys is free.',
     technique=TECH + ': seeded recorded histories (runs, store read-back, direct recordings), ledger oracle over all queries')
 CHECKS['C18'] = dict(
@@ -153,8 +155,9 @@ CHECKS['C19'] = dict(
     level='exploration', ref='DESIGN.md 6 (C19)',
     text='Seeded request histories (1-40 requests) against SurrogateModelEval, SurrogateModelPredict (logging train) and '
          'SurrogateModelScikit (stub regressor) with train_step in {-1,1,2,3,5,10}, initially trained or not, hook present or absent, '
-         'hook accept/decline per request from the fault stream; also requests produced by real Job.evaluate in batches and runs. A '
-         'reference model of counters / training lists / trained flag / train schedule is compared after every request. Sampling.',
+         'hook accept/decline (and the kind of value it returns) per request from the fault stream; also requests produced by real '
+         'Job.evaluate in batches and runs, and by 2-3 simulated workers (schedule-independent accounting only). A reference model '
+         'of counters / training lists / trained flag / train schedule is compared after every request. Sampling.',
     note='sequential requests (O3); regressors stubbed.',
     technique=TECH + ': seeded request histories with injected hook decisions, reference-model oracle after every request')
 
